@@ -1,2 +1,13 @@
 import Heathcliff.Props.C01
-#print axioms HC.C01.placeholder
+#print axioms HC.C01.deltaM_eq
+#print axioms HC.C01.deltaM_err
+#print axioms HC.C01.bfv_scale_round_trip
+#print axioms HC.C01.bgv_round_trip
+#print axioms HC.C01.phase_fresh_pk
+#print axioms HC.C01.phase_fresh_sk
+#print axioms HC.C01.phase_fresh_pk_bgv
+#print axioms HC.C01.negMul_norm_le
+#print axioms HC.C01.fresh_noise_bound
+#print axioms HC.C01.decrypt_fresh_bfv
+#print axioms HC.C01.multiplyAddPlain_coeff
+#print axioms HC.C01.bgv_round_trip_cf_bounded
